@@ -7,8 +7,12 @@ package c03
 
 import (
 	"fmt"
+	"os"
 	"regexp"
+	"sort"
+	"strconv"
 	"strings"
+	"sync"
 
 	minify "github.com/tdewolff/minify/v2"
 	mhtml "github.com/tdewolff/minify/v2/html"
@@ -36,6 +40,8 @@ func (c Config) String() string {
 	}
 	return fmt.Sprintf("opts=%s ctx=%s delims=%s", c.Opts, c.Ctx, d)
 }
+
+var bogusEnd = regexp.MustCompile(`</[^a-zA-Z]`)
 
 var cfgRe = regexp.MustCompile(`^opts=(\S+) ctx=(\S+) delims=(\S+)$`)
 
@@ -168,14 +174,32 @@ func runFamily(c *core.Check, name, bound string, delims int, gen func(emit func
 		var nt uint64
 		type res struct{ kind, what string }
 		cache := map[string]res{}
+		prepared := map[[2]bool]*htmltree.Input{}
+		// Without any "<!", "<?" or "</x" (x not a letter) neither text can hold a comment,
+		// and the comment allowance of the option set makes no difference.
+		commentFree := !strings.Contains(strings.TrimPrefix(text, "<!doctype html>"), "<!") && !strings.Contains(text, "<?") && !bogusEnd.MatchString(text) && delims == 0
 		for _, o := range OptionSets {
 			cfg := Config{Opts: o, Ctx: ctx, Delims: delims}
 			out, err, p := Minify(text, cfg)
 			oo := oracleOptions(cfg)
-			key := fmt.Sprintf("%v|%v|%s", oo.KeepComments, oo.KeepSpecialComments, out)
+			if commentFree {
+				oo.KeepComments, oo.KeepSpecialComments = false, false
+			}
+			mode := [2]bool{oo.KeepComments, oo.KeepSpecialComments}
+			key := fmt.Sprintf("%v|%s", mode, out)
 			r, ok := cache[key]
-			if !ok || err != nil || p != "" {
+			switch {
+			case err != nil || p != "" || delims > 0:
 				r.kind, r.what, _ = CheckOne(text, cfg)
+			case !ok:
+				in := prepared[mode]
+				if in == nil {
+					in = htmltree.Prepare(text, oo)
+					prepared[mode] = in
+				}
+				if r.kind, r.what = in.Compare(out); r.kind != "" {
+					r.what = fmt.Sprintf("output %q\n  %s", out, r.what)
+				}
 				cache[key] = r
 			}
 			if out != text {
@@ -183,7 +207,7 @@ func runFamily(c *core.Check, name, bound string, delims int, gen func(emit func
 				c.Nontrivial(s, o)
 			}
 			if r.kind != "" {
-				c.Fail(core.Failure{Family: name, Input: text, Config: cfg.String(), Kind: r.kind, What: r.what, Order: idx})
+				collect(core.Failure{Family: name, Input: text, Config: cfg.String(), Kind: r.kind, What: r.what, Order: idx})
 			}
 			if o == "default" && idx%40009 == 11 {
 				c.Sample(map[string]any{"family": name, "ctx": ctx, "in": text, "out": out})
@@ -195,8 +219,100 @@ func runFamily(c *core.Check, name, bound string, delims int, gen func(emit func
 	})
 }
 
+// Failure thinning. One defect of the minifier makes tens of thousands of enumerated cases
+// fail (every text with a noscript next to a space, times nine option sets); core keeps at
+// most 200000 failures. So failures are grouped by signature — family, kind and the set of
+// element names of the input — and only the perGroup simplest (enumeration order, then
+// option set) of each group are handed to core. The selection does not depend on the
+// scheduling of the workers; the totals are reported in the evidence.
+var perGroup = func() int {
+	// VERIF_C03_PER_GROUP overrides the number of failures kept per group (classification aid).
+	if n, err := strconv.Atoi(os.Getenv("VERIF_C03_PER_GROUP")); err == nil && n > 0 {
+		return n
+	}
+	return 6
+}()
+
+var tagNameRe = regexp.MustCompile(`<([a-zA-Z][a-zA-Z0-9-]*)`)
+
+type group struct {
+	total uint64
+	kept  []core.Failure // sorted, simplest first, at most perGroup
+}
+
+var (
+	collectMu sync.Mutex
+	groups    = map[string]*group{}
+	kindTotal = map[string]uint64{}
+)
+
+func failLess(a, b *core.Failure) bool {
+	if a.Order != b.Order {
+		return a.Order < b.Order
+	}
+	if a.Input != b.Input {
+		return a.Input < b.Input
+	}
+	return a.Config < b.Config
+}
+
+func collect(f core.Failure) {
+	names := map[string]bool{}
+	for _, m := range tagNameRe.FindAllStringSubmatch(f.Input, -1) {
+		names[strings.ToLower(m[1])] = true
+	}
+	list := make([]string, 0, len(names))
+	for n := range names {
+		list = append(list, n)
+	}
+	sort.Strings(list)
+	sig := f.Family + "|" + f.Kind + "|" + strings.Join(list, ",")
+	collectMu.Lock()
+	defer collectMu.Unlock()
+	kindTotal[f.Family+"/"+f.Kind]++
+	g := groups[sig]
+	if g == nil {
+		g = &group{}
+		groups[sig] = g
+	}
+	g.total++
+	i := sort.Search(len(g.kept), func(i int) bool { return failLess(&f, &g.kept[i]) })
+	if i >= perGroup {
+		return
+	}
+	g.kept = append(g.kept, core.Failure{})
+	copy(g.kept[i+1:], g.kept[i:])
+	g.kept[i] = f
+	if len(g.kept) > perGroup {
+		g.kept = g.kept[:perGroup]
+	}
+}
+
+func flush(c *core.Check) {
+	collectMu.Lock()
+	defer collectMu.Unlock()
+	sigs := make([]string, 0, len(groups))
+	var total uint64
+	for s, g := range groups {
+		sigs = append(sigs, s)
+		total += g.total
+	}
+	sort.Strings(sigs)
+	for _, s := range sigs {
+		for _, f := range groups[s].kept {
+			c.Fail(f)
+		}
+	}
+	c.Extra["failing_evaluations"] = total
+	c.Extra["failure_groups"] = len(groups)
+	c.Extra["failing_evaluations_by_family_kind"] = kindTotal
+	c.Extra["failures_reported_per_group"] = perGroup
+	groups, kindTotal = map[string]*group{}, map[string]uint64{}
+}
+
 // Run executes C03.
 func Run(c *core.Check) {
+	defer flush(c)
 	c.Rule = "exhaustive enumeration, within the bound stated per family, of conforming documents (<!doctype html>, html.Parse) and fragments (html.ParseFragment in a no-quirks body/select/table/tr/ul/dl/ruby context): (i) optional tags: parent x left sibling x whitespace x right sibling [thorough: triples] with end tags written or omitted in the input where the standard allows, document tags written/omitted; (ii) whitespace placement around and inside inline/block/atomic/not-rendered element pairs; (iii) attribute values over the quote/reference alphabet under three quoting styles on one attribute of each kind, the catalogue of standard attributes with conforming values, and the special cases coded in html.go; (iv) raw-text and escapable-raw-text bodies; (v) text with character references; (vi) template delimiters; (vii) comments. Each case runs under 9 option sets (default, all Keep*, each Keep* alone) with an HTML-only registry; evaluations = (text, option set) pairs; non-trivial = output bytes differ from input; distinct = distinct (context, text, option set)"
 	c.Assumptions = []string{
 		"golang.org/x/net/html v0.34.0 is the HTML5-conforming reference tokenizer and tree builder",
@@ -204,13 +320,18 @@ func Run(c *core.Check) {
 		"the start and the end of a fragment are block boundaries (the text is minified as a whole)",
 		"HTML-only registry: style, script, on*, svg and math content must pass through byte-identical (modulo documented trimming)",
 	}
-	runTags(c)
-	runWhitespace(c)
-	runAttrs(c)
-	runRaw(c)
-	runText(c)
-	runTemplates(c)
-	runComments(c)
+	for _, part := range []struct {
+		name string
+		run  func(*core.Check)
+	}{{"tags", runTags}, {"whitespace", runWhitespace}, {"attrs", runAttrs}, {"raw", runRaw}, {"text", runText}, {"templates", runTemplates}, {"comments", runComments}} {
+		// VERIF_C03_ONLY=tags,attrs restricts a run to some parts (debugging aid; such a
+		// run is reported as not exhaustive).
+		if only := os.Getenv("VERIF_C03_ONLY"); only != "" && !strings.Contains(","+only+",", ","+part.name+",") {
+			c.Exhaustive = false
+			continue
+		}
+		part.run(c)
+	}
 }
 
 // Replay re-executes one failure.
